@@ -832,7 +832,18 @@ func (ctx *RenderContext) EvaluateExpression(node Node) (interface{}, error) {
 		// We can't use pooling with defer here because the map is returned directly
 		result := make(map[string]interface{}, len(n.items))
 
-		for k, v := range n.items {
+		// Source order, so that the entry written last wins for a repeated key
+		// (a hash node built without an order falls back to the map)
+		keys := n.order
+		if len(keys) != len(n.items) {
+			keys = make([]Node, 0, len(n.items))
+			for k := range n.items {
+				keys = append(keys, k)
+			}
+		}
+
+		for _, k := range keys {
+			v := n.items[k]
 			// Evaluate the key
 			keyVal, err := ctx.EvaluateExpression(k)
 			if err != nil {
